@@ -65,6 +65,19 @@ int main(int argc, char** argv) {
             if (want) ++g_accept;
         }
     }
+    {   // nonterminal names that collide under common string hashes are still different symbols: root -> A 'x' | B 'y' ; A -> 'a' ; B -> 'b'
+        static const char* pairs[][2] = {{"costarring", "liquid"}, {"declinate", "macallums"}, {"altarage", "zinke"}, {"hetairas", "mentioner"}, {"stylist", "subgenera"}, {"Aa", "BB"}, {"plumless", "buckeroo"}, {"codding", "gnu"}};
+        for (auto& pr : pairs) {
+            nterm<int> root("root"), A(pr[0]), B(pr[1]);
+            parser p(root, terms('a', 'b', 'x', 'y'), nterms(root, A, B), rules(root(A, 'x') >= val(1), root(B, 'y') >= val(2), A('a') >= val(0), B('b') >= val(0)));
+            for (const std::string& in : all_inputs("abxy", 3)) {
+                ++g_cases; ++g_checks; int want = in == "ax" ? 1 : in == "by" ? 2 : 0;
+                std::ostringstream es; auto r = p.parse(string_buffer(std::string(in)), es);
+                if ((r ? *r : 0) != want) fail((std::string("nonterminals '") + pr[0] + "' and '" + pr[1] + "'").c_str(), in, "parse gives " + (r ? std::to_string(*r) : std::string("<rejected>")) + ", the rules as written give " + (want ? std::to_string(want) : std::string("<rejected>")));
+                if (want) ++g_accept;
+            }
+        }
+    }
     std::string esc; for (char c : g_first) { if (c == '"' || c == '\\') esc += '\\'; esc += c; }
     std::printf("{\"cases\": %ld, \"checks\": %ld, \"failures\": %ld, \"accepted\": %ld, \"first_failure\": \"%s\"}\n", g_cases, g_checks, g_fail, g_accept, esc.c_str());
     return g_fail ? 1 : 0;
